@@ -415,10 +415,14 @@ def forward_signatures(func, calls, args, kwargs, sig):
 
 def autoforwards_partial(par, args, kwargs):
     sig = autoforwards(par.func, par.args, {})
-    return _signatures._mask(
-        sig, len(par.args),
-        False, False, False, False,
-        par.keywords or {}, par)
+    try:
+        return _signatures._mask(
+            sig, len(par.args),
+            False, False, False, False,
+            par.keywords or {}, par)
+    except ValueError:
+        # the signature discovered with the bound arguments cannot take them
+        raise UnknownForwards()
 
 
 def any_params_star(sig):
